@@ -1,6 +1,7 @@
 """Re-run one C09 case on the implementation and print what the property oracle says.
 usage: python -m harness.c09_replay '["isect"|"union", events1, events2]'
-(an event is [ts_us, dur_us, data, id])"""
+(an event is [ts_us, dur_us, data, id])
+       python -m harness.c09_replay --script '<script json>'     a sequence of calls in one process (harness/c09_hist.py)"""
 import json
 import sys
 
@@ -8,7 +9,26 @@ from . import common
 from . import c09
 
 
+def main_script(script):
+    from . import c09_hist
+    common.setup_impl_env()
+    labels = c09_hist.SnapLabels()
+    records, findings = c09_hist.run_script(script, c09_hist.Env(), labels, c09, stop_at_first=False)
+    for r in records:
+        if r["kind"] == "aborted":
+            print("step", r["step"], "aborted:", r["why"])
+        else:
+            print("step %d %s via %s\n   inputs : %s %s\n   output : %s" % (r["step"], r["kind"], r["via"], r["va"], r["vb"], r["res"]))
+    for k, clause, msg, soft in findings:
+        print("oracle : step %d: %s" % (k, msg))
+    if not findings:
+        print("oracle : ok")
+    return 1 if findings else 0
+
+
 def main():
+    if sys.argv[1] == "--script":
+        return main_script(json.loads(sys.argv[2]))
     case = json.loads(sys.argv[1])
     case = tuple([case[0], [tuple(x) for x in case[1]], [tuple(x) for x in case[2]]] + case[3:])
     common.setup_impl_env()
